@@ -8,7 +8,7 @@ import tempfile
 from sqlalchemy.orm import sessionmaker, scoped_session
 
 import proto
-from common import Failure, Outcome, Broken, REPO, HERE
+from common import capped, Failure, Outcome, Broken, REPO, HERE
 from gen import pick
 import polcase
 import stores
@@ -37,7 +37,7 @@ def read_all(path, pid_of):
     """a fresh engine + session: what any other process sees now"""
     st = open_storage(path)
     try:
-        return sorted('%s:%d' % (proto.enc_str(p.uid), pid_of(p)) for p in st.retrieve_all(50))
+        return sorted('%s:%d' % (proto.enc_str(p.uid), pid_of(p)) for p in capped(st.retrieve_all(50)))
     except Exception as e:
         return ['unreadable:%s' % type(e).__name__]
     finally:
